@@ -40,6 +40,11 @@ type Pt struct{ X, Y Num }
 type Rc struct{ Min, Max Pt }
 type Sg struct{ A, B Pt }
 type Ray struct{ In, On Bool }
+
+// a *Line, *Poly or Ring operand: an expression of the model's type (rng / poly); never nil
+type Op struct{ T, E string }
+type Nil struct{}
+type Tup []Val // several results of one call
 type Val interface{}
 
 // a result tree: leaf value or if-then-else
@@ -127,6 +132,15 @@ func cmpN(op token.Token, a, b Num) Bool {
 }
 
 func eqVal(a, b Val) Bool {
+	if _, ok := b.(Nil); ok {
+		if _, isOp := a.(Op); isOp {
+			return Bool{"false"} // operands of the model are never nil
+		}
+		fail("comparison of %T with nil", a)
+	}
+	if _, ok := a.(Nil); ok {
+		return eqVal(b, a)
+	}
 	switch x := a.(type) {
 	case Num:
 		return cmpN(token.EQL, x, b.(Num))
@@ -164,7 +178,7 @@ func typeName(e ast.Expr) string {
 	case *ast.SelectorExpr: // geometry.Rect
 		return t.Sel.Name
 	case *ast.StarExpr:
-		return "*" + typeName(t.X)
+		return typeName(t.X)
 	}
 	return "?"
 }
@@ -245,6 +259,10 @@ func field(v Val, f string) Val {
 		} else if f == "On" {
 			return x.On
 		}
+	case Op:
+		if x.T == "Poly" && f == "Exterior" {
+			return Op{"Ring", paren("exterior " + x.E)}
+		}
 	}
 	fail("field %s of %T", f, v)
 	return nil
@@ -304,6 +322,22 @@ func lvalue(e ast.Expr) (string, []string) {
 
 var depth = 0
 
+// named results of the functions being executed (innermost last)
+var resultNames [][]string
+
+func bindResults(fd *ast.FuncDecl, env Env) {
+	var names []string
+	if fd.Type.Results != nil {
+		for _, f := range fd.Type.Results.List {
+			for _, n := range f.Names {
+				env[n.Name] = zero(typeName(f.Type))
+				names = append(names, n.Name)
+			}
+		}
+	}
+	resultNames = append(resultNames, names)
+}
+
 func call(key string, recv Val, args []Val) Val {
 	if strings.HasSuffix(key, ".Raycast") {
 		s, p := render(recv), render(args[0])
@@ -332,6 +366,8 @@ func call(key string, recv Val, args []Val) Val {
 			i++
 		}
 	}
+	bindResults(fd, env)
+	defer func() { resultNames = resultNames[:len(resultNames)-1] }()
 	t := exec(fd.Body.List, env)
 	return flatten(t)
 }
@@ -367,6 +403,16 @@ func ite(c string, a, b Val) Val {
 	case Ray:
 		y := b.(Ray)
 		return Ray{ite(c, x.In, y.In).(Bool), ite(c, x.On, y.On).(Bool)}
+	case Tup:
+		y := b.(Tup)
+		if len(x) != len(y) {
+			fail("results of different arity")
+		}
+		var t Tup
+		for i := range x {
+			t = append(t, ite(c, x[i], y[i]))
+		}
+		return t
 	}
 	fail("if-then-else on %T", a)
 	return nil
@@ -379,6 +425,9 @@ func eval(e ast.Expr, env Env) Val {
 	case *ast.Ident:
 		if x.Name == "true" || x.Name == "false" {
 			return Bool{x.Name}
+		}
+		if x.Name == "nil" {
+			return Nil{}
 		}
 		if v, ok := env[x.Name]; ok {
 			return v
@@ -405,6 +454,8 @@ func eval(e ast.Expr, env Env) Val {
 		case token.SUB:
 			return negN(v.(Num))
 		case token.ADD:
+			return v
+		case token.AND:
 			return v
 		}
 		fail("unary %v", x.Op)
@@ -433,6 +484,16 @@ func eval(e ast.Expr, env Env) Val {
 		fail("binary %v", x.Op)
 	case *ast.CompositeLit:
 		t := typeName(x.Type)
+		if t == "Poly" { // &Poly{Exterior: rect}
+			if len(x.Elts) == 1 {
+				if kv, ok := x.Elts[0].(*ast.KeyValueExpr); ok && kv.Key.(*ast.Ident).Name == "Exterior" {
+					if r, isRect := eval(kv.Value, env).(Rc); isRect {
+						return Op{"Poly", paren("rect_poly " + render(r))}
+					}
+				}
+			}
+			fail("composite literal of Poly")
+		}
 		v := zero(t)
 		names := map[string][]string{"Point": {"X", "Y"}, "Rect": {"Min", "Max"}, "Segment": {"A", "B"}}[t]
 		for i, el := range x.Elts {
@@ -453,9 +514,20 @@ func eval(e ast.Expr, env Env) Val {
 		}
 		switch f := x.Fun.(type) {
 		case *ast.Ident:
+			if v, ok := ringCall(f.Name, args); ok {
+				return v
+			}
 			return call(f.Name, nil, args)
 		case *ast.SelectorExpr:
+			if pk, ok := f.X.(*ast.Ident); ok && pk.Name == "math" {
+				if _, shadow := env["math"]; !shadow {
+					return mathCall(f.Sel.Name, args)
+				}
+			}
 			recv := eval(f.X, env)
+			if o, isOp := recv.(Op); isOp {
+				return opCall(o, f.Sel.Name, args)
+			}
 			tn := map[string]string{"main.Pt": "Point", "main.Rc": "Rect", "main.Sg": "Segment"}[fmt.Sprintf("%T", recv)]
 			if tn == "" {
 				fail("method call on %T", recv)
@@ -466,6 +538,150 @@ func eval(e ast.Expr, env Env) Val {
 	}
 	fail("expression %T", e)
 	return nil
+}
+
+func rectOf(e string) Rc {
+	v := func(s string) Num { return one(paren(s)) }
+	return Rc{Pt{v("px (fst " + e + ")"), v("py (fst " + e + ")")}, Pt{v("px (snd " + e + ")"), v("py (snd " + e + ")")}}
+}
+
+func asRing(v Val) string {
+	switch x := v.(type) {
+	case Rc:
+		return paren("RR " + render(x))
+	case Op:
+		if x.T == "Ring" || x.T == "Line" {
+			return x.E
+		}
+	}
+	fail("%T used as a ring", v)
+	return ""
+}
+
+// the loop-carrying algorithms stay model functions (tied by the correspondence run)
+func ringCall(name string, args []Val) (Val, bool) {
+	model := map[string]string{"ringIntersectsLine": "ring_intersects_line", "ringContainsLine": "ring_contains_ring",
+		"ringIntersectsRing": "ring_intersects_ring", "ringContainsRing": "ring_contains_ring"}[name]
+	if model == "" || len(args) != 3 {
+		return nil, false
+	}
+	b, ok := args[2].(Bool)
+	if !ok {
+		return nil, false
+	}
+	return Bool{paren(model + " " + asRing(args[0]) + " " + asRing(args[1]) + " " + b.E)}, true
+}
+
+func opCall(o Op, name string, args []Val) Val {
+	arg := func(i int) string {
+		if i >= len(args) {
+			fail("%s.%s arity", o.T, name)
+		}
+		return render(args[i])
+	}
+	key := o.T + "." + name
+	switch key {
+	case "Line.Empty", "Ring.Empty":
+		return Bool{paren("ring_empty " + o.E)}
+	case "Line.Rect", "Ring.Rect":
+		return rectOf(paren("ring_rect " + o.E))
+	case "Poly.Empty":
+		return Bool{paren("poly_empty " + o.E)}
+	case "Poly.Rect":
+		return rectOf(paren("poly_rect " + o.E))
+	case "Line.ContainsPoint":
+		return Bool{paren("line_contains_point_r " + o.E + " " + arg(0))}
+	case "Line.IntersectsLine":
+		return Bool{paren("line_intersects_line " + o.E + " " + arg(0))}
+	case "Poly.ContainsPoint":
+		return Bool{paren("poly_contains_point " + o.E + " " + arg(0))}
+	case "Poly.ContainsPoly":
+		return Bool{paren("poly_contains_poly " + o.E + " " + arg(0))}
+	case "Poly.IntersectsPoly":
+		return Bool{paren("poly_intersects_poly " + o.E + " " + arg(0))}
+	case "Poly.ContainsLine":
+		return Bool{paren("poly_contains_line " + o.E + " " + arg(0))}
+	case "Poly.IntersectsLine":
+		return Bool{paren("poly_intersects_line " + o.E + " " + arg(0))}
+	}
+	if _, ok := funcs[key]; ok {
+		return call(key, o, args) // a delegating method: inlined
+	}
+	fail("method %s on an opaque operand", key)
+	return nil
+}
+
+// math.Min / Max / Abs on grid values (no NaN, no signed zero there)
+func mathCall(name string, args []Val) Val {
+	num := func(i int) Num {
+		if i >= len(args) {
+			fail("math.%s arity", name)
+		}
+		n, ok := args[i].(Num)
+		if !ok || n.D != "1" {
+			fail("math.%s on a fraction", name)
+		}
+		return n
+	}
+	switch name {
+	case "Min":
+		a, b := num(0), num(1)
+		return one(paren("Z.min " + a.N + " " + b.N))
+	case "Max":
+		a, b := num(0), num(1)
+		return one(paren("Z.max " + a.N + " " + b.N))
+	case "Abs":
+		a := num(0)
+		return one(paren("Z.abs " + a.N))
+	}
+	fail("math.%s", name)
+	return nil
+}
+
+// switch statements become if chains
+func switchToIf(x *ast.SwitchStmt) ast.Stmt {
+	if x.Init != nil {
+		fail("switch with init")
+	}
+	var def *ast.CaseClause
+	var clauses []*ast.CaseClause
+	for _, c := range x.Body.List {
+		cc := c.(*ast.CaseClause)
+		for _, st := range cc.Body {
+			if b, ok := st.(*ast.BranchStmt); ok && (b.Tok == token.FALLTHROUGH || b.Tok == token.BREAK) {
+				fail("switch with %v", b.Tok)
+			}
+		}
+		if cc.List == nil {
+			def = cc
+		} else {
+			clauses = append(clauses, cc)
+		}
+	}
+	var tail ast.Stmt
+	if def != nil {
+		tail = &ast.BlockStmt{List: def.Body}
+	}
+	for i := len(clauses) - 1; i >= 0; i-- {
+		cc := clauses[i]
+		var cond ast.Expr
+		for _, e := range cc.List {
+			var c ast.Expr = e
+			if x.Tag != nil {
+				c = &ast.BinaryExpr{X: x.Tag, Op: token.EQL, Y: e}
+			}
+			if cond == nil {
+				cond = c
+			} else {
+				cond = &ast.BinaryExpr{X: cond, Op: token.LOR, Y: c}
+			}
+		}
+		tail = &ast.IfStmt{Cond: cond, Body: &ast.BlockStmt{List: cc.Body}, Else: tail}
+	}
+	if tail == nil {
+		return &ast.BlockStmt{}
+	}
+	return tail
 }
 
 func blockStmts(s ast.Stmt) []ast.Stmt {
@@ -488,12 +704,32 @@ func exec(stmts []ast.Stmt, env Env) *Tree {
 	case *fallStmt:
 		return &Tree{Leaf: fallMarker{fmt.Sprintf("%v", env)}}
 	case *ast.ReturnStmt:
-		if len(x.Results) != 1 {
-			fail("return with %d results", len(x.Results))
+		if len(x.Results) == 0 {
+			names := resultNames[len(resultNames)-1]
+			if len(names) == 0 {
+				fail("bare return")
+			}
+			if len(names) == 1 {
+				return &Tree{Leaf: env[names[0]]}
+			}
+			var t Tup
+			for _, n := range names {
+				t = append(t, env[n])
+			}
+			return &Tree{Leaf: t}
 		}
-		return &Tree{Leaf: eval(x.Results[0], env)}
+		if len(x.Results) == 1 {
+			return &Tree{Leaf: eval(x.Results[0], env)}
+		}
+		var t Tup
+		for _, r := range x.Results {
+			t = append(t, eval(r, env))
+		}
+		return &Tree{Leaf: t}
 	case *ast.BlockStmt:
 		return exec(append(append([]ast.Stmt{}, x.List...), rest...), env)
+	case *ast.SwitchStmt:
+		return exec(append([]ast.Stmt{switchToIf(x)}, rest...), env)
 	case *ast.IfStmt:
 		if x.Init != nil {
 			fail("if with init")
@@ -511,12 +747,20 @@ func exec(stmts []ast.Stmt, env Env) *Tree {
 		if x.Tok != token.ASSIGN && x.Tok != token.DEFINE {
 			fail("assignment operator %v", x.Tok)
 		}
-		if len(x.Lhs) != len(x.Rhs) {
-			fail("assignment arity")
-		}
 		var vals []Val
-		for _, r := range x.Rhs {
-			vals = append(vals, eval(r, env))
+		if len(x.Rhs) == 1 && len(x.Lhs) > 1 {
+			t, ok := eval(x.Rhs[0], env).(Tup)
+			if !ok || len(t) != len(x.Lhs) {
+				fail("assignment arity")
+			}
+			vals = t
+		} else {
+			if len(x.Lhs) != len(x.Rhs) {
+				fail("assignment arity")
+			}
+			for _, r := range x.Rhs {
+				vals = append(vals, eval(r, env))
+			}
 		}
 		for i, l := range x.Lhs {
 			root, path := lvalue(l)
@@ -644,6 +888,8 @@ func render(v Val) string {
 		return "(" + render(x.Min) + ", " + render(x.Max) + ")"
 	case Sg:
 		return "(" + render(x.A) + ", " + render(x.B) + ")"
+	case Op:
+		return x.E
 	}
 	fail("result of type %T", v)
 	return ""
@@ -667,6 +913,10 @@ func symbolic(t, name string) (Val, string) {
 		return Rc{Pt{v("px (fst " + name + ")"), v("py (fst " + name + ")")}, Pt{v("px (snd " + name + ")"), v("py (snd " + name + ")")}}, "rect"
 	case "Segment":
 		return Sg{Pt{v("px (fst " + name + ")"), v("py (fst " + name + ")")}, Pt{v("px (snd " + name + ")"), v("py (snd " + name + ")")}}, "seg"
+	case "Line":
+		return Op{"Line", name}, "rng"
+	case "Poly":
+		return Op{"Poly", name}, "poly"
 	}
 	fail("parameter type %s", t)
 	return nil, ""
@@ -689,6 +939,21 @@ var targets = []struct{ key, model string }{
 	{"Point.IntersectsRect", "point_intersects_rect $0 $1"},
 	{"Point.ContainsRect", "point_contains_rect $0 $1"},
 	{"unionRects", "union_rects $0 $1"},
+	// the delegating layer between the four geometry kinds
+	{"Rect.ContainsLine", "rect_contains_line $0 $1"},
+	{"Rect.IntersectsLine", "rect_intersects_line $0 $1"},
+	{"Rect.ContainsPoly", "rect_contains_poly $0 $1"},
+	{"Rect.IntersectsPoly", "rect_intersects_poly $0 $1"},
+	{"Point.ContainsLine", "point_contains_line $0 $1"},
+	{"Point.IntersectsLine", "point_intersects_line $0 $1"},
+	{"Point.ContainsPoly", "point_contains_poly $0 $1"},
+	{"Point.IntersectsPoly", "point_intersects_poly $0 $1"},
+	{"Line.IntersectsPoint", "line_contains_point_r $0 $1"},
+	{"Line.IntersectsRect", "line_intersects_rect $0 $1"},
+	{"Line.IntersectsPoly", "line_intersects_poly $0 $1"},
+	{"Poly.IntersectsPoint", "poly_contains_point $0 $1"},
+	{"Poly.ContainsRect", "poly_contains_rect $0 $1"},
+	{"Poly.IntersectsRect", "poly_intersects_rect $0 $1"},
 }
 
 func translate(key, model string) (def, lemma string) {
@@ -718,6 +983,8 @@ func translate(key, model string) (def, lemma string) {
 			env[n.Name] = env["v_"+n.Name]
 		}
 	}
+	bindResults(fd, env)
+	defer func() { resultNames = resultNames[:len(resultNames)-1] }()
 	t := exec(fd.Body.List, env)
 	cname := "T_" + strings.ReplaceAll(key, ".", "_")
 	def = "Definition " + cname + " " + strings.Join(binders, " ") + " :=\n  " + renderTree(t, "  ") + "."
@@ -752,7 +1019,7 @@ func main() {
 		}
 		targets = sel
 	}
-	load(os.Args[1], []string{"geometry/point.go", "geometry/rect.go", "geometry/segment.go", "object.go"})
+	load(os.Args[1], []string{"geometry/point.go", "geometry/rect.go", "geometry/segment.go", "geometry/line.go", "geometry/poly.go", "object.go"})
 	var out []string
 	out = append(out, "(* generated by tools/gotrans from the Go source of the working tree; do not edit *)",
 		"From Coq Require Import ZArith Bool Lia.", "From GJ Require Import Base Kernel Ring Obj TieTac.", "Open Scope Z_scope.", "")
